@@ -7,12 +7,13 @@ storing `sbsc`, and (replay_subject.rs:95-99) taking the forwarder down again if
 namespace Rx.CRef
 open Rx.Sim Rx.SubjM Rx.Ref Rx.RefR
 
-theorem RelRp.ready {L cobs cacs armed unst Hd w st n} (h : RelRp L cobs cacs armed (some n) unst Hd w st) :
-    RelRp L cobs cacs armed none unst Hd (w.setUser n fun u => { u with ready := true }) st := by
-  obtain ⟨g, U, X⟩ := h.ur
+theorem URr.ready {L cobs cacs unst Hd cg sb cn w n} {s : SubjM.State}
+    (hur : URr L cobs cacs (some n) unst Hd cg sb cn w s) :
+    URr L cobs cacs none unst Hd cg sb cn (w.setUser n fun u => { u with ready := true }) s := by
+  obtain ⟨g, U, X⟩ := hur
   have g' : Glob (L.roots ++ L.fwds) cobs (w.setUser n fun u => { u with ready := true }) :=
     ⟨g.status, g.nObs, g.rootsLt, g.cobsLt, g.nodup⟩
-  refine ⟨g', h.held, ⟨g', ?_, { X with }⟩, h.conns.frame rfl rfl (fun _ _ => rfl) (fun _ _ => rfl)⟩
+  refine ⟨g', ?_, { X with }⟩
   exact
     { U with
       nUsers := by simp [World.setUser, U.nUsers]
@@ -23,6 +24,10 @@ theorem RelRp.ready {L cobs cacs armed unst Hd w st n} (h : RelRp L cobs cacs ar
         by_cases e : u = n
         · subst e; exact ⟨true, by rw [users_modify_same _ h1], fun _ => rfl⟩
         · exact ⟨rd, by rw [users_modify_other _ e]; exact h1, fun _ => h2 (fun x => e (Option.some.inj x).symm)⟩ }
+
+theorem RelRp.ready {L cobs cacs armed unst Hd w st n} (h : RelRp L cobs cacs armed (some n) unst Hd w st) :
+    RelRp L cobs cacs armed none unst Hd (w.setUser n fun u => { u with ready := true }) st :=
+  ⟨h.ur.ready.1, h.held, h.ur.ready, h.conns.frame rfl rfl (fun _ _ => rfl) (fun _ _ => rfl)⟩
 
 /-- the stored-terminal program of replay_subject.rs:77-83, in the form `RSubj.observable` unfolds to -/
 def termProgR (we : Option Nat) (wc : Bool) (o : Nat) : Prog :=
@@ -41,19 +46,26 @@ theorem logOf_trace_evs (w : World) (evs : List Ev) (n u : Nat) :
     logOf { w with trace := w.trace ++ evs.map (Rec.ev n) } u = logOf w u ++ if n = u then evs else [] := by
   rw [logOf_trace_append, logOf_evs]
 
-theorem subscribeTail_spec {L cobs cacs armed w st n s1} (l : Option Nat) {root fwd sb : Nat}
+theorem probesOf_evs (t : List Rec) (n : Nat) (evs : List Ev) :
+    (t ++ evs.map (Rec.ev n)).filter isProbe = t.filter isProbe := by
+  rw [List.filter_append]
+  have : (evs.map (Rec.ev n)).filter isProbe = [] := by
+    rw [List.filter_eq_nil_iff]; intro r hr; obtain ⟨e, _, rfl⟩ := List.mem_map.1 hr; simp [isProbe]
+  rw [this, List.append_nil]
+
+theorem subscribeTailG_spec (F : RFam) {L cobs cacs armed w st n s1} (l : Option Nat) {root fwd sb : Nat}
     (e1 : root = rootAt L.roots n) (e2 : fwd = rootAt L.fwds n) (e3 : sb = rootAt L.sbs n)
-    (h : RelRp L cobs cacs armed (some n) (some n) [] w st) (hr : st.sub.obs n = regRec s1) :
+    (h : F.Rel L cobs cacs armed (some n) (some n) [] w st) (hr : st.sub.obs n = regRec s1) :
     WP ((forEach st.sub.items fun x => .obsNext root x .done) ;;
         termProgR st.sub.wasError st.sub.wasCompleted root) w (fun w3 =>
       WP (storeProgR root fwd sb) w3 (fun w4 =>
         WP (.userReady n .done) w4 (fun w' => ∃ L' armed', L'.roots = L.roots ∧
-          RelRp L' cobs cacs armed' none none [] w'
+          F.Rel L' cobs cacs armed' none none [] w'
             (ConnM.onUnsubscribe
               { st with sub := (subscribeB .replay st.sub n { fresh := true, len := l, history := st.sub.items }).1 }
               (subscribeB .replay st.sub n { fresh := true, len := l, history := st.sub.items }).2)))) := by
   subst e1 e2 e3
-  obtain ⟨g, U, X⟩ := h.ur
+  obtain ⟨g, U, X⟩ := F.ur h
   have hn : n + 1 = L.roots.length := U.unstLast n rfl
   have hnl : n < L.roots.length := by omega
   have hlf : n < L.fwds.length := U.lenF ▸ hnl
@@ -89,9 +101,9 @@ theorem subscribeTail_spec {L cobs cacs armed w st n s1} (l : Option Nat) {root 
     simp only [rootOfL, regRec, Obs.isSub, cbN, cbE, cbC, ↓reduceIte, Option.isSome_some, Bool.and_self]
     refine WP.done (wp_userReady (WP.done ⟨L.store w.cells.length, armed, rfl, ?_⟩))
     rw [onUnsubscribe_none]
-    refine RelRp.ready ?_
-    refine h.storeUser _ (liveRecS s1 st.sub.items) st.sub.observers rfl rfl rfl rfl rfl (by simp)
-      ?_ ?_ ?_ ?_ rfl (fun _ _ _ => rfl) ?_ ?_ ?_ ?_ (by rw [hr]; rfl) rfl (fun hh => by cases hh) U.keys U.regBound
+    refine F.ready ?_
+    refine F.storeUser h _ (liveRecS s1 st.sub.items) st.sub.observers rfl rfl rfl rfl rfl (by simp)
+      ?_ ?_ ?_ ?_ rfl (fun _ _ _ => rfl) ?_ ?_ ?_ ?_ (by rw [hr]; rfl) rfl (fun hh => by cases hh) U.keys U.regBound ?_
     · show ((w.cells ++ [_]).set _ _)[2]? = _
       rw [set_get_other _ (by omega), get_app_lt _ _ _ (by omega)]; exact U.cellO
     · intro i h2 hsb hi
@@ -118,6 +130,10 @@ theorem subscribeTail_spec {L cobs cacs armed w st n s1} (l : Option Nat) {root 
       simp only [List.map_map] at this
       rw [show (fun x => Rec.ev n (Ev.next x)) = (Rec.ev n ∘ Ev.next) from rfl, this, hlog0]
       simp [liveRecS]
+    · show List.filter isProbe (w.trace ++ _) = _
+      have := probesOf_evs w.trace n (st.sub.items.map .next)
+      simp only [List.map_map] at this
+      exact this
   | some t =>
     have ht := termOf_terminal hterm
     dsimp only
@@ -156,7 +172,7 @@ theorem subscribeTail_spec {L cobs cacs armed w st n s1} (l : Option Nat) {root 
     dsimp only
     -- the relation before the `on_unsubscribe` hook
     have hacsl : L.acs.length = n := by have := U.lenA; simp at this; omega
-    have hR := h.storeUser
+    have hR := F.storeUser h
       { obs := (w.obs.modify (rootAt L.roots n) Obs.cleared).modify (rootAt L.fwds n)
           (fun x => { x.cleared with onUnsub := none })
         slots := w.slots
@@ -207,18 +223,23 @@ theorem subscribeTail_spec {L cobs cacs armed w st n s1} (l : Option Nat) {root 
         simp [deadRec])
       (by rw [hr]; rfl) rfl (fun hh => by cases hh)
       (fun p hp => U.keys p (List.mem_filter.1 hp).1) (fun p hp => U.regBound p (List.mem_filter.1 hp).1)
+      (by
+        show List.filter isProbe (w.trace ++ _ ++ [Rec.ev n t]) = _
+        have := probesOf_evs w.trace n (st.sub.items.map .next ++ [t])
+        simp only [List.map_append, List.map_map, List.map_cons, List.map_nil, ← List.append_assoc] at this
+        exact this)
     unfold slotTail
-    refine wp_lockedSlotCall_someG (SlotReads.of_nil X.held) (show _ = some (some _) from hR.ur.2.2.slot3) ?_
+    refine wp_lockedSlotCall_someG (SlotReads.of_nil X.held) (show _ = some (some _) from (F.ur hR).2.2.slot3) ?_
     dsimp only
     rw [X.held]
-    have hmid := hR.held_swap (Hd' := [(LockId.slot 3, false)]) (w' := _) rfl (SlotReads.nil.cons 3)
-    refine (onUnsubHookR_spec hmid _).conseq ?_
+    have hmid := F.held_swap hR (Hd' := [(LockId.slot 3, false)]) (w' := _) rfl (SlotReads.nil.cons 3)
+    refine (F.onUnsubHook hmid _).conseq ?_
     rintro w5 ⟨armed', h5⟩
     refine wp_lockRel (WP.done (WP.done ?_))
     have hrel : w5.release (LockId.slot Sp.onUnsub) = { w5 with held := [] } :=
-      release_single w5 _ false h5.ur.2.2.held
+      release_single w5 _ false (F.ur h5).2.2.held
     rw [hrel]
     refine wp_userReady (WP.done ⟨L.store w.cells.length, armed', rfl, ?_⟩)
-    exact (h5.held_swap rfl SlotReads.nil).ready
+    exact F.ready (F.held_swap h5 rfl SlotReads.nil)
 
 end Rx.CRef
